@@ -1,6 +1,6 @@
 (* Property C19 — routes installed by the routing daemon mirror its tables; prefix logs replicate.
    Only theorem statements closed by `exact`, each followed by Print Assumptions. *)
-From DvFib Require Import U64 GenConsts ConstFacts PfxLog PfxLogProofs PfxLogLive DvFib DvFibProofs.
+From DvFib Require Import U64 GenConsts ConstFacts PfxLog PfxLogProofs PfxLogLive DvFib DvFibProofs DvDaemon DvDaemonProofs.
 Open Scope N_scope.
 
 (* log_replication. For every initial sequence number s0, every history of publisher operations (announce, withdraw;
@@ -79,6 +79,26 @@ Theorem installed_is_prefixes_map : forall me evs p f,
 Proof. exact installed_is_prefixes_map_l. Qed.
 Print Assumptions installed_is_prefixes_map.
 
+(* daemon_keeps_mirror: not only is the installer right when it runs — the daemon runs it whenever needed.  For ANY RIB
+   implementation (type ribT, the view the installer reads, a step per advertisement and per dead neighbour, each
+   returning the dirty flag) whose flag is sound (false -> view unchanged: C18's change_flag_sound) and whose
+   dead-neighbour step leaves no entry pointing at that neighbour, and for every history of handler runs — neighbour
+   pings with face changes (accepted or ignored), advertisements, dead-neighbour sweeps, prefix Data from any router,
+   own announcements, extra fibUpdates, all map orders — in which fibUpdate runs exactly when the code runs it (face
+   changed / dirty / Apply dirty), the route table equals `desired` of the current tables after EVERY handler. *)
+Theorem daemon_keeps_mirror :
+  forall (ribT : Type) (rib_view : ribT -> list ribent) (rib_ev : Type)
+         (rib_step : ribT -> rib_ev -> ribT * bool) (rib_dead : ribT -> N -> ribT * bool),
+  (forall r e, snd (rib_step r e) = false -> rib_view (fst (rib_step r e)) = rib_view r) ->
+  (forall r n, snd (rib_dead r n) = false -> rib_view (fst (rib_dead r n)) = rib_view r) ->
+  (forall r n x, n <> 0 -> In x (rib_view (fst (rib_dead r n))) -> re_nh1 x <> n /\ re_nh2 x <> n) ->
+  forall me r0 evs, rib_view r0 = [] ->
+  forall p f,
+    rt_lookup (d_rt ribT (drun ribT rib_view rib_ev rib_step rib_dead me r0 evs)) (p, f) =
+    desired (tables_of ribT rib_view (drun ribT rib_view rib_ev rib_step rib_dead me r0 evs)) p f.
+Proof. exact daemon_keeps_mirror_l. Qed.
+Print Assumptions daemon_keeps_mirror.
+
 (* What `desired` depends on: tables with the same RIB view that agree on the faces of the next hops occurring in it and
    on the prefix sets of the reachable remote routers occurring in it prescribe the same routes (so such a change needs
    no fibUpdate: this is the frame the daemon's "dirty" tests rely on; the harness checks the daemon's own decisions
@@ -128,3 +148,23 @@ Example c19_live_example :
   j_known (snd (rounds (N.to_nat fetch_threshold + 2) (settle (run 0 evs)))) = 121 /\
   j_set (snd (rounds (N.to_nat fetch_threshold + 2) (settle (run 0 evs)))) = [7].
 Proof. vm_compute. repeat split; try discriminate; auto. right. discriminate. Qed.
+
+(* non-vacuity of daemon_keeps_mirror: a RIB instance meeting the hypotheses (flags always dirty; the dead-neighbour
+   step drops entries through that neighbour) and a run with a face change, an ignored passive ping and a prefix *)
+Example c19_daemon_example :
+  let view := fun r : list ribent => r in
+  let stepf := fun (r e : list ribent) => (e, true) in
+  let deadf := fun (r : list ribent) (n : N) => (filter (fun x => negb (N.eqb (re_nh1 x) n) && negb (N.eqb (re_nh2 x) n)) r, true) in
+  let r1 := {| re_name := 1; re_pfx := 101; re_nh1 := 5; re_l1 := 1; re_nh2 := 0; re_l2 := 16 |} in
+  let d := drun (list ribent) view (list ribent) stepf deadf 9 []
+             [DPing _ 5 50 true [] []; DRib _ [r1] [] []; DPfx _ 1 {| ol_reset := false; ol_adds := [70]; ol_rems := [] |} [] [];
+              DPing _ 5 51 true [] []; DPing _ 5 52 false [] []] in
+  (forall r n x, n <> 0 -> In x (view (fst (deadf r n))) -> re_nh1 x <> n /\ re_nh2 x <> n) /\
+  rt_lookup (d_rt _ d) (70, 51) = Some 1 /\ rt_lookup (d_rt _ d) (70, 50) = None /\ rt_lookup (d_rt _ d) (101, 51) = Some 1.
+Proof.
+  split.
+  - intros r n x _ H. simpl in H. apply filter_In in H. destruct H as [_ H].
+    apply andb_true_iff in H. destruct H as [H1 H2].
+    apply negb_true_iff in H1. apply negb_true_iff in H2. apply N.eqb_neq in H1. apply N.eqb_neq in H2. split; assumption.
+  - vm_compute. repeat split.
+Qed.
